@@ -109,6 +109,11 @@ func expectDetect(op *Op, x []byte, st state) expectation {
 		d = *op.Del
 	}
 	reach, corner := FaultReach(d, len(x), st.limit)
+	if reach && op.Kind == "file" && d.FaultAt == len(x) {
+		// A file that fails exactly where its content ends: an implementation that
+		// learnt the size from Stat never reads there. Both outcomes are accepted.
+		reach, corner = false, true
+	}
 	if reach {
 		return expectation{key: octet, wantErr: true}
 	}
